@@ -109,8 +109,9 @@ def run(ctx):
         vecs = []
     if not ctx.thorough:
         big = [v for v in vecs if v["bytes"] > 1500]
-        small = [v for v in vecs if v["bytes"] <= 1500]
-        vecs = small + r.sample(big, min(len(big), 25))
+        sha = [v for v in vecs if v["bytes"] <= 1500 and v["name"] == "sha256"]
+        small = [v for v in vecs if v["bytes"] <= 1500 and v["name"] != "sha256"]
+        vecs = small + r.sample(sha, min(len(sha), 100)) + r.sample(big, min(len(big), 15))
     vlines = [run_line(v["program"], v["env"]) for v in vecs]
     vi = vlib.run_impl("run", vlines)
     vr = vlib.run_model("ref", vlines)
@@ -133,16 +134,16 @@ def run(ctx):
 
     lap("vectors")
     # ---- (ii) generated programs
-    n = ctx.scale(500, 12000)
+    n = ctx.scale(350, 12000)
     pool = []
     fz = gen_prog.fuzz_programs(r, n)
     pool += [(p, e, "fuzz") for p, e in fz]
     pool += [(p, e, "shape") for p, e in gen_prog.small_programs(r)]
     pool += gen_c01.adapter_programs(r)
-    pool += gen_c01.operator_programs(r, ctx.scale(500, 6000))
+    pool += gen_c01.operator_programs(r, ctx.scale(400, 6000))
     pool += gen_c01.path_programs(r, ctx.scale(60, 1500))
     pool += gen_c01.unknown_programs(r, ctx.scale(60, 1500))
-    pool += gen_c01.compose_programs(r, ctx.scale(500, 8000))
+    pool += gen_c01.compose_programs(r, ctx.scale(400, 8000))
     # directed: finding F6 reached through run_program (two 1 MiB atoms)
     f6 = gen_prog.op(bytes.fromhex("7fd0110580"), gen_prog.q(gen.Rep(0x41, 1 << 20)), gen_prog.q(gen.Rep(0x42, 1 << 20)))
     pool.append((gen.tt(f6), gen.tt(b""), "directed-F6"))
@@ -163,7 +164,7 @@ def run(ctx):
         ctx.evaluations += 1
         if cls == "ok":
             classic_pool.append((p, e))
-            if c > 0 and (tag not in ("fuzz", "compose", "operator") or r.random() < 0.35):
+            if c > 0 and (tag not in ("fuzz", "compose", "operator") or r.random() < ctx.scale(0.2, 0.35)):
                 bs = {c, c - 1, c + 1, max(1, c // 2), r.randrange(1, c + 1), 1}
                 bs.discard(0)
                 for b in sorted(bs):
